@@ -194,12 +194,13 @@ impl<'a> DocSymEmitter<'a> {
             }
             Token::Segment { id, block, .. } => {
                 if let Some(b) = block {
-                    if let Ok(Some(symbol_id)) = self
+                    // Release the lock before looking at the block: a nested segment needs it again
+                    let symbol_id = self
                         .codegen
                         .lock()
                         .unwrap()
-                        .evaluate_expression_as_string(id, false)
-                    {
+                        .evaluate_expression_as_string(id, false);
+                    if let Ok(Some(symbol_id)) = symbol_id {
                         self.emit_document_symbols(&b.inner, Some(&Identifier::new(symbol_id)))
                     } else {
                         vec![]
